@@ -272,10 +272,19 @@ func (prop) Run(raw json.RawMessage, scratch string) core.Result {
 		return fail("scratch: " + err.Error())
 	}
 	_ = os.MkdirAll(pdir, 0o755)
+	_ = os.WriteFile(filepath.Join(mod, "go.mod"), []byte("module example.com/m\n\ngo 1.23\n"), 0o644)
+	// defined types over foreign structs: the expectation is read from the sources the go command of THIS module uses
+	if err := fillOvers(&in, gorootOf(mod)); err != nil {
+		return fail("harness: cannot read the declaration of a foreign struct: " + err.Error())
+	}
+	normalizeClasses(&in)
 	src := source(&in)
 	obs.Source = src
-	_ = os.WriteFile(filepath.Join(mod, "go.mod"), []byte("module example.com/m\n\ngo 1.23\n"), 0o644)
 	_ = os.WriteFile(filepath.Join(pdir, "p.go"), []byte(src), 0o644)
+	if len(in.Others) > 0 {
+		_ = os.MkdirAll(filepath.Join(mod, otherPkg), 0o755)
+		_ = os.WriteFile(filepath.Join(mod, otherPkg, otherPkg+".go"), []byte(otherSource(&in)), 0o644)
+	}
 	for name, content := range in.Files {
 		fp := filepath.Join(pdir, filepath.FromSlash(name))
 		_ = os.MkdirAll(filepath.Dir(fp), 0o755)
@@ -512,6 +521,18 @@ func tagsOf(in *Input, res *core.Result) {
 		}
 		if !token.IsExported(t.Name) {
 			tags["unexported_type"] = true
+		}
+		if t.Over != "" {
+			if _, std := overImport(t.Over); std {
+				tags["defined_over_std_struct"] = true
+			} else {
+				tags["defined_over_struct_of_other_package_of_the_module"] = true
+			}
+			for _, f := range t.Fields {
+				if token.IsExported(f.Name) && len(raw(f.Doc)) > 0 && in.covered(t) {
+					tags["foreign_field_with_doc"] = true
+				}
+			}
 		}
 		if t.Kind == "struct" && !hasExpose(t) {
 			tags["struct_without_exported_field"] = true
